@@ -53,6 +53,96 @@ def check(run, prog, tier):
                        "tensors, propagators, hierarchy) and the evolutions that convert from the rotating frame read "
                        "units-converting accessors under internal units", minimum=40)
     rule_U9(run, prog)
+    run.rule("C05-U10", "method accessor pairs: a set_X that converts its value to internal units has a get_X that "
+                        "converts it back to the current units (and package code that consumes such a getter for a "
+                        "calculation does so under internal units)", minimum=4)
+    rule_U10(run, prog)
+
+
+def converting_setter_pairs(prog):
+    """[(class, setter FuncInfo, stored attributes, getter FuncInfo or None)] for every method set_X whose value
+    goes through convert_*_2_internal_u into an attribute of self"""
+    out = []
+    for c in sorted(prog.all_classes(), key=lambda c: c.qualname):
+        if ".tests." in c.qualname or ".wizard." in c.qualname:
+            continue
+        for nme, fn in sorted(c.methods.items()):
+            if not nme.startswith("set_"):
+                continue
+            conv_locals, stores = set(), set()
+
+            def base_attr(t):
+                b = t
+                while isinstance(b, ast.Subscript):
+                    b = b.value
+                return b.attr if isinstance(b, ast.Attribute) and isinstance(b.value, ast.Name) and b.value.id == "self" else None
+            for n in walk_no_nested(fn.node):
+                if isinstance(n, ast.Assign) and isinstance(n.value, ast.Call) and (call_name(n.value) or "").endswith("2_internal_u"):
+                    for t in n.targets:
+                        if isinstance(t, ast.Name):
+                            conv_locals.add(t.id)
+                        elif base_attr(t):
+                            stores.add(base_attr(t))
+            for n in walk_no_nested(fn.node):
+                if isinstance(n, ast.Assign) and any(isinstance(x, ast.Name) and x.id in conv_locals for x in ast.walk(n.value)):
+                    for t in n.targets:
+                        if base_attr(t):
+                            stores.add(base_attr(t))
+            if stores:
+                out.append((c, fn, stores, c.methods.get("get_" + nme[4:])))
+    return out
+
+
+def rule_U10(run, prog):
+    rid = "C05-U10"
+    from .. import unitflow
+    npairs = 0
+    for c, setter, stores, getter in converting_setter_pairs(prog):
+        if getter is None:
+            continue
+        reads = {x.attr for x in walk_no_nested(getter.node) if isinstance(x, ast.Attribute) and isinstance(x.ctx, ast.Load)
+                 and isinstance(x.value, ast.Name) and x.value.id == "self"}
+        if not (reads & stores):
+            continue
+        npairs += 1
+        prog.consulted.add(getter.relpath)
+        # every return that hands out the stored value converts it
+        bad = []
+        for r in [n for n in walk_no_nested(getter.node) if isinstance(n, ast.Return) and n.value is not None]:
+            touches = any(isinstance(x, ast.Attribute) and isinstance(x.value, ast.Name) and x.value.id == "self"
+                          and x.attr in stores for x in ast.walk(r.value))
+            local = {t_.id for n in walk_no_nested(getter.node) if isinstance(n, ast.Assign)
+                     and any(isinstance(x, ast.Attribute) and isinstance(x.value, ast.Name) and x.value.id == "self"
+                             and x.attr in stores for x in ast.walk(n.value))
+                     and not any(isinstance(x, ast.Call) and (call_name(x) or "").endswith("2_current_u") for x in ast.walk(n.value))
+                     for t_ in n.targets if isinstance(t_, ast.Name)}
+            touches = touches or any(isinstance(x, ast.Name) and x.id in local for x in ast.walk(r.value))
+            conv = any(isinstance(x, ast.Call) and (call_name(x) or "").endswith("2_current_u") for x in ast.walk(r.value))
+            if touches and not conv:
+                bad.append(r)
+        run.obligation(rid, "%s.%s" % (c.name, getter.name), not bad, key="pair:" + setter.name,
+                       message="%s.%s converts the value to internal units before storing it in self.%s, but %s returns "
+                               "the stored number unconverted (%s): supplied and read back under the same units context "
+                               "the value differs by the unit factor"
+                               % (c.name, setter.name, sorted(stores)[0], getter.name, norm(bad[0])[:60] if bad else ""),
+                       loc=getter.loc(bad[0]) if bad else getter.loc(),
+                       sample={"class": c.name, "setter": setter.name, "getter": getter.name, "stored_in": sorted(stores)})
+    if npairs < 4:
+        raise AnalysisError("C05-U10: only %d converting accessor pairs found (4 confirmed)" % npairs)
+    # the aggregate reads the monomers' widths through its own state-pair form while it is built: those reads are
+    # calculations in internal units
+    ab = prog.cls("quantarhei.builders.aggregate_base.AggregateBase")
+    cr = unitflow.CalculatorReads(prog, ab)
+    sites = [(fn, node, d, p) for fn, node, d, p in cr.sites
+             if isinstance(node, ast.Call) and node.func.attr == "get_transition_width" and len(node.args) == 2
+             and isinstance(node.func.value, ast.Name) and node.func.value.id == "self"]
+    if "get_transition_width" in cr.getters and not sites:
+        raise AnalysisError("C05-U10: the aggregate no longer reads transition widths through the state-pair getter")
+    for fn, node, d, p in sites:
+        run.obligation(rid, fn.short, p is not None, key="consumer:" + norm(node)[:50],
+                       message="%s uses %s (which hands on the monomer's width in the current units) in a calculation "
+                               "outside energy_units('int')" % (fn.short, norm(node)), loc=fn.loc(node),
+                       sample={"site": fn.short, "protected": p})
 
 
 def rule_U9(run, prog):
